@@ -43,6 +43,10 @@ def main():
             raise RuntimeError(f"ginjax imported from {src}, expected {want}")
         rm = reach.Reach(getattr(mod, "ANCHORS", []))
         rm.arm()
+        lm = None
+        if os.environ.get("VMON_COVMAP"):
+            lm = reach.LineMap(src)
+            lm.arm()
         if hasattr(mod, "setup"):
             st = mod.setup(ctx)
             if st:
@@ -68,6 +72,10 @@ def main():
         r["t"] = round(time.time() - t0, 3)
         emit(r)
     meta["reach"] = rm.report()
+    if lm is not None:
+        os.makedirs(os.environ["VMON_COVMAP"], exist_ok=True)
+        with open(os.path.join(os.environ["VMON_COVMAP"], f"{prop}_{tier}_{os.getpid()}.json"), "w") as f:
+            json.dump(lm.report(), f)
     if hasattr(mod, "teardown"):
         meta.update(mod.teardown(ctx) or {})
     emit(meta)
